@@ -357,7 +357,7 @@ def step (q : Quirks) (s : Proto) : Inp → Proto × List Out
   | .deferred a i k => viaLookup q s a i k
   | .reply a i k =>
     match find s.atts a with
-    | none => (s, [.unknown a])
+    | none => (s, [.orphan a i])          -- no record of the attempt: its requests were cancelled before the record went
     | some x =>
       match x.slots[i]? with
       | some sl =>
